@@ -36,13 +36,10 @@ fn fails_same(
     tmp: &std::path::Path,
 ) -> Option<(Case, String)> {
     let mut ctx = Ctx::new(tier, tmp.to_path_buf());
-    let v = prop.check(cand, &mut ctx);
-    let v = match v {
-        Some(v) => v,
-        None => {
-            // a jawk panic the property did not turn into a violation itself
-            return None;
-        }
+    // the same entry point as the batch and the replay (history prelude, generic panic rule)
+    let v = match crate::driver::full_check(prop, cand, &mut ctx) {
+        Ok(Some(v)) => v,
+        _ => return None,
     };
     if v.rule != rule {
         return None;
